@@ -646,7 +646,7 @@ func (r *Runner) cmd(ctx context.Context, cm syntax.Command) {
 			if y.Init != nil {
 				r.arithm(y.Init)
 			}
-			for {
+			for !r.stop(ctx) {
 				if y.Cond != nil {
 					// Only an error in the condition ends the loop;
 					// the status of the previous iteration must not.
